@@ -86,7 +86,7 @@ func runC04(c *bx.Ctx) {
 		}
 		w, err := ref.Encode(v.P, opt)
 		if err != nil {
-			c.Report(keyJoin("C04", v.Type, "harness/reference-rejects"), "HARNESS: reference encoder rejects a value of D", bx.Replay{Entry: "ref.Encode", Value: valueString(v), Expected: "bytes", Observed: err.Error()})
+			c.Report(keyJoin("C04", v.Type, "harness/reference-rejects"), "HARNESS: reference encoder rejects a value of D", bx.Replay{Entry: "ref.Encode", Value: valueString(v), ValueGob: valueGob(v), Expected: "bytes", Observed: err.Error()})
 			return
 		}
 		if c04Decode(c, v.Type, w.B, quantise(v.P), false, keyJoin("C04", v.Type, "canonical"), v.String(), shapeClass(v.P)) {
